@@ -521,6 +521,42 @@ func runC10(c *eng.Ctx) {
 	})
 
 	// ---- cache coherence with the snapshot ---------------------------------------------------------------------------------------------
+	// ---- group by: resolving value ids to names scans the persisted dictionary until the REQUESTED ids are exhausted -----------------
+	// (indexKVStore.CollectKVs fills the result map from the memory stores first and passes the remaining ids: the size of the
+	// result says nothing about how many of the remaining ids were found)
+	c.Rule("GUARD", "index/model.TrieBucket.CollectKVs{the scan ends on the requested ids only}", func() {
+		f := c.Fn("index/model.TrieBucket.CollectKVs")
+		if len(f.Params) < 3 {
+			c.Undecided("unresolved anchor: CollectKVs(values, result)")
+		}
+		values, result := ssa.Value(f.Params[1]), ssa.Value(f.Params[2])
+		exits := eng.EarlyLoopExits(f)
+		n := 0
+		for i, e := range exits {
+			if len(e.From.Instrs) == 0 {
+				continue
+			}
+			n++
+			at := e.From.Instrs[len(e.From.Instrs)-1]
+			if e.To != nil && len(e.To.Instrs) > 0 {
+				at = e.To.Instrs[0]
+			}
+			conds, _ := eng.GuardingConds(f, at)
+			onResult, onValues := "", false
+			for _, cd := range conds {
+				if eng.DependsOn(cd, func(x ssa.Value) bool { return x == result }) {
+					onResult = p.Desc(cd)
+				}
+				if eng.DependsOn(cd, func(x ssa.Value) bool { return x == values }) {
+					onValues = true
+				}
+			}
+			c.Check(onResult == "" && onValues, fmt.Sprintf("early-exit-decided-by-the-requested-ids[%d]", i), at, f,
+				"the scan of the persisted dictionary stops early only because of the requested id set (ids found are removed from it), never because of the size of the result map the caller pre-filled", "exit conditional on "+onResult)
+		}
+		c.Check(true, "scan-exits", nil, f, fmt.Sprintf("%d early exit(s) examined", n), "")
+	})
+
 	c.Rule("ORDER", kvsT+".Flush{snapshot then purge, one hold}", func() {
 		f := c.Fn(kvsT + ".Flush")
 		ls := p.Locks(f, nil)
